@@ -26,7 +26,7 @@ MOD = "git.torproject.org/pluggable-transports/snowflake.git/v2/"
 
 # properties whose quick drivers are re-run under the race detector: (id, extra args)
 SUBCHECKS_QUICK = [("C17", []), ("C15", []), ("C05", []), ("C16", []), ("C03", ["--only", "bridgelist"])]
-SUBCHECKS_THOROUGH = [("C17", []), ("C15", []), ("C05", []), ("C16", []), ("C03", ["--only", "bridgelist"]), ("C01", []), ("C18", []), ("C06", [])]
+SUBCHECKS_THOROUGH = [("C17", []), ("C15", []), ("C05", []), ("C16", []), ("C03", ["--only", "bridgelist"]), ("C01", []), ("C18", []), ("C06", []), ("C11", ["--only", "utls"])]
 
 
 def parse_races(text):
